@@ -231,6 +231,11 @@ func checkMain(cfg *Config) int {
 			if fs.Flags["fnspec"] != "" || fs.Flags["iface"] != "" {
 				continue
 			}
+			if fs.Flags["inline"] != "" || fs.Flags["trusted"] != "" {
+				// inline: clauses (loop invariants) for a closure that is executed in its caller's context;
+				// trusted: a contract on a repository function that is used at call sites but not verified (reported)
+				continue
+			}
 			if cfg.Prop == "" || hasProp(fs.Props, cfg.Prop) {
 				keys = append(keys, k)
 			}
